@@ -179,6 +179,32 @@ func (c *caseT) op() {
 		msg := &restaketypes.MsgUnstake{StakerAddress: acc.Address.String(), Coins: sdk.NewCoins(sdk.NewCoin(d, amt))}
 		e := fx.Atomically(c.ctx, func(ctx sdk.Context) error { _, err := c.rms.Unstake(ctx, msg); return err })
 		c.emit(fx.M{"op": "unstake", "acct": a, "denom": d, "amt": json.Number(amt.String())}, e)
+	case x < 8 && rk.GetStake(c.ctx, acc.Address).Coins.Len() >= 2 && r.Chance(1, 2): // unstake several denoms in one message (the locks are checked once, on the whole result)
+		st := rk.GetStake(c.ctx, acc.Address).Coins
+		coins := sdk.NewCoins()
+		js := [][]any{}
+		for _, d := range denoms {
+			have := st.AmountOf(d)
+			if !have.IsPositive() {
+				continue
+			}
+			amt := c.reduceAmt(a, have)
+			if r.Chance(1, 3) {
+				amt = sdkmath.OneInt()
+			}
+			if amt.IsPositive() {
+				coins = coins.Add(sdk.NewCoin(d, amt))
+			}
+		}
+		if len(coins) < 2 {
+			return
+		}
+		for _, cn := range coins {
+			js = append(js, []any{cn.Denom, json.Number(cn.Amount.String())})
+		}
+		msg := &restaketypes.MsgUnstake{StakerAddress: acc.Address.String(), Coins: coins}
+		e := fx.Atomically(c.ctx, func(ctx sdk.Context) error { _, err := c.rms.Unstake(ctx, msg); return err })
+		c.emit(fx.M{"op": "unstakeMulti", "acct": a, "coins": js}, e)
 	case x < 9: // delegate
 		v := r.Intn(len(bandtesting.Validators))
 		amt := int64(r.PickInt(1, 5, 100, 1000))
@@ -245,6 +271,40 @@ func (c *caseT) op() {
 	}
 }
 
+// reimport: the module's genesis is exported and a branch of the store initialised from it (an upgrade by export/import);
+// observed through the same dump, nothing may differ — stakes, locks and their by-power index, vaults, the module balance
+func (c *caseT) reimport() {
+	cctx, _ := c.ctx.CacheContext()
+	saved := c.ctx
+	e := fx.Try(func() error {
+		g := c.app.RestakeKeeper.ExportGenesis(cctx)
+		if err := g.Validate(); err != nil {
+			return err
+		}
+		wipe(cctx.KVStore(c.app.GetKey(restaketypes.StoreKey)))
+		c.app.RestakeKeeper.InitGenesis(cctx, g)
+		return nil
+	})
+	c.ctx = cctx
+	out := c.dump()
+	c.ctx = saved
+	out["err"] = e
+	c.tr.Op(fx.M{"op": "reimport", "out": out})
+}
+
+// wipe empties a module store (on a branch): the import then starts from nothing but the genesis, as on a new chain
+func wipe(st storetypes.KVStore) {
+	var keys [][]byte
+	it := st.Iterator(nil, nil)
+	for ; it.Valid(); it.Next() {
+		keys = append(keys, append([]byte{}, it.Key()...))
+	}
+	it.Close()
+	for _, k := range keys {
+		st.Delete(k)
+	}
+}
+
 func runCase(app *fx.App, tr *fx.Trace, r *fx.Rng) {
 	ctx, _ := app.Ctx.CacheContext()
 	c := &caseT{app: app, ctx: ctx, tr: tr, r: r, accts: []bandtesting.Account{bandtesting.Alice, bandtesting.Bob, bandtesting.Carol},
@@ -294,7 +354,11 @@ func runCase(app *fx.App, tr *fx.Trace, r *fx.Rng) {
 	n := r.Range(10, 60)
 	for i := 0; i < n; i++ {
 		c.op()
+		if r.Chance(1, 15) {
+			c.reimport()
+		}
 	}
+	c.reimport()
 }
 
 func main() {
